@@ -2,8 +2,10 @@
 pub mod engines;
 pub mod json;
 pub mod mw;
+pub mod numoracle;
 pub mod report;
 pub mod rng;
+pub mod sandbox;
 
 #[derive(Clone, Copy, Debug, Eq, PartialEq)]
 pub enum Tier {
